@@ -225,6 +225,14 @@ func (e *c01env) exec(c *Ctx, kind string, nt *c01net, args ...[]byte) {
 }
 
 func runC01(c *Ctx) {
+	if len(c.Args) >= 1 && c.Args[0] == "victim" {
+		c01victim(c)
+		return
+	}
+	if len(c.Args) >= 1 && c.Args[0] == "live" {
+		runC01Live(c, 200)
+		return
+	}
 	env := c01setup(c)
 	defer env.close()
 	if len(c.Args) >= 2 && c.Args[0] == "replay" {
@@ -235,9 +243,19 @@ func runC01(c *Ctx) {
 				env.exec(c, "put", nt, key, make([]byte, 100))
 			}
 		}
+		var live []c01liveItem
+		defer func() {
+			if len(live) > 0 {
+				runC01LiveList(c, 0, live)
+			}
+		}()
 		for _, ln := range readReplayCases(c.Args[1]) {
 			f := strings.Fields(strings.SplitN(ln, "|", 2)[0])
 			if len(f) < 3 {
+				continue
+			}
+			if f[0] == "live" {
+				live = append(live, c01liveItem{f[1], unhx(f[2])})
 				continue
 			}
 			var nt *c01net
@@ -350,6 +368,12 @@ func runC01(c *Ctx) {
 			}
 			env.exec(c, kind, nt, m)
 		}
+	}
+	// live attack over loopback UDP against a child process (handlers run in the discv5 goroutines, no recover)
+	if c.Tier == "thorough" {
+		runC01Live(c, 3000)
+	} else {
+		runC01Live(c, 150)
 	}
 	// one well-formed connection-id CONTENT response: the call must return (uTP dial to a dead peer times out)
 	if c.Tier == "thorough" {
